@@ -122,6 +122,7 @@ func fieldSel(info *types.Info, e ast.Expr, pkg, typ, field string) bool {
 
 type Anchors struct {
 	P *Prog
+	upWrappers map[*types.Func]*FuncBody
 
 	Run, RunTask, Status, Setup        *FuncBody
 	ListTasks, ListTaskNames, ToEditor *FuncBody
@@ -666,30 +667,33 @@ func (a *Anchors) returnedFuncOps(fb *FuncBody) [][]string {
 		if len(r.Results) != 1 {
 			continue
 		}
-		switch x := ast.Unparen(r.Results[0]).(type) {
-		case *ast.FuncLit:
-			out = append(out, a.semOps(x.Body, info, 2))
-		case *ast.SelectorExpr:
-			if fn, ok := info.Uses[x.Sel].(*types.Func); ok {
-				if d := a.P.DeclOf(fn); d != nil {
-					out = append(out, a.semOps(d.Body, d.Info(), 2))
-					continue
-				}
-			}
-			out = append(out, nil)
-		case *ast.Ident:
-			if fn, ok := info.Uses[x].(*types.Func); ok {
-				if d := a.P.DeclOf(fn); d != nil {
-					out = append(out, a.semOps(d.Body, d.Info(), 2))
-					continue
-				}
-			}
-			out = append(out, nil)
-		default:
-			out = append(out, []string{"?"})
-		}
+		out = append(out, a.funcValueOps(info, r.Results[0]))
 	}
 	return out
+}
+
+// funcValueOps: the semaphore operations performed by the function value e denotes (a literal, a method value, a declared
+// function); ["?"] when e is something else.
+func (a *Anchors) funcValueOps(info *types.Info, e ast.Expr) []string {
+	switch x := ast.Unparen(e).(type) {
+	case *ast.FuncLit:
+		return a.semOps(x.Body, info, 2)
+	case *ast.SelectorExpr:
+		if fn, ok := info.Uses[x.Sel].(*types.Func); ok {
+			if d := a.P.DeclOf(fn); d != nil {
+				return a.semOps(d.Body, d.Info(), 2)
+			}
+		}
+		return nil
+	case *ast.Ident:
+		if fn, ok := info.Uses[x].(*types.Func); ok {
+			if d := a.P.DeclOf(fn); d != nil {
+				return a.semOps(d.Body, d.Info(), 2)
+			}
+		}
+		return nil
+	}
+	return []string{"?"}
 }
 
 // runTaskWrapper: a declared function of package task every return of which yields, as its error, the result of RunTask
@@ -935,4 +939,51 @@ func (a *Anchors) slotUndoDeferred(l string) string {
 		return "deferred:release"
 	}
 	return "deferred:acquire"
+}
+
+// upToDateWrappers: the thin forwarders of package task to fingerprint.IsTaskUpToDate — declared functions whose only call
+// of it is the operand of a return statement (`func (e *Executor) isTaskUpToDate(ctx, t, dry) (bool, error) { return
+// fingerprint.IsTaskUpToDate(…) }`). A call of one is an up-to-date query in the caller.
+func (a *Anchors) upToDateWrappers() map[*types.Func]*FuncBody {
+	if a.upWrappers != nil {
+		return a.upWrappers
+	}
+	a.upWrappers = map[*types.Func]*FuncBody{}
+	for _, fb := range a.P.BodiesIn(PkgTask) {
+		if fb.Decl == nil || fb.Obj == nil {
+			continue
+		}
+		info := fb.Info()
+		nCalls, nRet := 0, 0
+		inspectDeep(fb.Body, func(n ast.Node) bool {
+			switch x := n.(type) {
+			case *ast.CallExpr:
+				if isFunc(callee(info, x), PkgFingerprint, "", "IsTaskUpToDate") {
+					nCalls++
+				}
+			case *ast.ReturnStmt:
+				if len(x.Results) == 1 {
+					if call, ok := ast.Unparen(x.Results[0]).(*ast.CallExpr); ok && isFunc(callee(info, call), PkgFingerprint, "", "IsTaskUpToDate") {
+						nRet++
+					}
+				}
+			}
+			return true
+		})
+		if nCalls == 1 && nRet == 1 && len(fb.Body.List) == 1 {
+			a.upWrappers[fb.Obj] = fb
+		}
+	}
+	return a.upWrappers
+}
+
+// isUpToDateCallee: fingerprint.IsTaskUpToDate or a thin forwarder to it.
+func (a *Anchors) isUpToDateCallee(obj types.Object) bool {
+	if isFunc(obj, PkgFingerprint, "", "IsTaskUpToDate") {
+		return true
+	}
+	if fn, ok := obj.(*types.Func); ok {
+		return a.upToDateWrappers()[fn] != nil || a.upToDateWrappers()[fn.Origin()] != nil
+	}
+	return false
 }
